@@ -28,6 +28,7 @@ import (
 
 	sdkmath "cosmossdk.io/math"
 	sdk "github.com/cosmos/cosmos-sdk/types"
+	"github.com/ethereum/go-ethereum/common"
 	"github.com/palomachain/paloma/v2/verifharness/emit"
 	"github.com/palomachain/paloma/v2/x/skyway/keeper"
 	"github.com/palomachain/paloma/v2/x/skyway/types"
@@ -279,11 +280,101 @@ func aliasPair(r *rand.Rand, t int, nonce uint64) (spec, spec) {
 	}
 	a.Compass, b.Compass = x, y
 	if t != tBatch && r.Intn(2) == 0 {
-		a.Compass, b.Compass = b.Compass, b.Compass
+		a.Compass, b.Compass = "55", "55"
 		a.Receiver, b.Receiver = x, y
 		a.Client, b.Client = x, y
 	}
 	return a, b
+}
+
+// nearMiss returns a spelling of s that a lenient parser might take for s: surrounding white space, case changes
+// (bech32 / hex), missing or upper-case 0x, EIP-55 checksum spelling, unicode look-alikes, invisible characters.
+func nearMiss(r *rand.Rand, s string) string {
+	isHex := strings.HasPrefix(strings.ToLower(s), "0x") && len(s) == 42
+	for try := 0; try < 20; try++ {
+		var o string
+		switch r.Intn(14) {
+		case 0:
+			o = " " + s
+		case 1:
+			o = s + " "
+		case 2:
+			o = "\t" + s
+		case 3:
+			o = s + "\n"
+		case 4:
+			o = " " + s + "  "
+		case 5:
+			o = "\u00a0" + s // no-break space (unicode white space)
+		case 6:
+			o = strings.ToUpper(s)
+		case 7:
+			o = strings.ToLower(s)
+		case 8:
+			if isHex {
+				o = common.HexToAddress(s).Hex() // EIP-55
+			} else {
+				o = " " + strings.ToUpper(s)
+			}
+		case 9:
+			if isHex {
+				o = s[2:]
+			} else {
+				o = strings.ToUpper(s) + " "
+			}
+		case 10:
+			if isHex {
+				o = "0x" + strings.ToUpper(s[2:])
+			} else {
+				o = s + "\u200b" // zero width space
+			}
+		case 11:
+			o = strings.Replace(s, "a", "\u0430", 1) // cyrillic a
+		case 12:
+			o = strings.Replace(s, "e", "\u0435", 1) // cyrillic e
+		default:
+			if isHex {
+				o = "0x" + strings.ToLower(s[2:])
+			} else {
+				o = strings.Replace(s, "1", "\uff11", 1) // fullwidth 1
+			}
+		}
+		if o != s {
+			return o
+		}
+	}
+	return s + " "
+}
+
+// nearMissSpec changes one text field of the victim into a near-miss spelling.
+func nearMissSpec(r *rand.Rand, v spec) (spec, string) {
+	a := v.clone()
+	a.Orch = 4
+	var names []string
+	switch v.T {
+	case tDeposit:
+		names = []string{"PalomaReceiver", "PalomaReceiver", "PalomaReceiver", "TokenContract", "EthereumSender", "CompassId"}
+	case tBatch:
+		names = []string{"TokenContract", "TokenContract", "CompassId"}
+	default:
+		names = []string{"ClientAddress", "ClientAddress", "SmartContractAddress", "SmartContractAddress", "CompassId"}
+	}
+	fn := names[r.Intn(len(names))]
+	switch fn {
+	case "PalomaReceiver":
+		a.Receiver = nearMiss(r, v.Receiver)
+	case "TokenContract":
+		a.Token = nearMiss(r, v.Token)
+	case "EthereumSender":
+		a.Sender = nearMiss(r, v.Sender)
+	case "CompassId":
+		a.Compass = nearMiss(r, v.Compass)
+	case "ClientAddress":
+		a.Client = nearMiss(r, v.Client)
+	case "SmartContractAddress":
+		a.Contract = nearMiss(r, v.Contract)
+	}
+	return a, fn
 }
 
 type corpusEntry struct {
@@ -380,10 +471,30 @@ func TestCorr(t *testing.T) {
 		src := map[string]int{}
 		okN, errN := 0, 0
 		chains := map[string]bool{}
-		for i, s := range ops {
-			c := build(s)
+		votesOf := func(chs []string) map[string]attRec {
+			m := map[string]attRec{}
+			for _, a := range e.attestations(chs) {
+				m[string(a.Key)] = a
+			}
+			return m
+		}
+		for _, s := range ops {
+			// pristine copy of the claim AS SUBMITTED, in its wire-canonical form (one protobuf round trip: the only thing
+			// it changes is that a zero-value math.Int amount, which marshals as "0", reads back as 0 — the msg server's
+			// NewAnyWithValue does the same to the message before Attest sees it); never handed to the keeper
+			c := wireCopy(build(s))
+			if err := c.ValidateBasic(); err != nil {
+				// baseapp rejects it before delivery (and GetClaimer would panic): not part of the history
+				run.Count("hist-step", "invalid-basic")
+				continue
+			}
 			chains[s.Chain] = true
-			res, detail := e.submit(c)
+			var chs []string
+			for ch := range chains {
+				chs = append(chs, ch)
+			}
+			before := votesOf(chs)
+			res, detail := e.submit(build(s))
 			run.Count("hist-step", res)
 			if res == "panic" {
 				run.Violate("C11:submit-panic", "claim submission panicked: "+detail, replay)
@@ -394,32 +505,44 @@ func TestCorr(t *testing.T) {
 			} else {
 				errN++
 			}
+			idx := len(terms)
 			results = append(results, emit.Bool(ok))
 			terms = append(terms, emit.Pair(emit.ZI(int64(s.Orch)), coqClaim(c)))
-			var chs []string
-			for ch := range chains {
-				chs = append(chs, ch)
-			}
-			for _, a := range e.attestations(chs) {
-				if _, seen := src[string(a.Key)]; !seen {
-					src[string(a.Key)] = i
+			after := votesOf(chs)
+			for k := range after {
+				if _, seen := src[k]; !seen {
+					src[k] = idx
 				}
 			}
-			if ok {
-				// the vote must have been counted for a body with the same effect
-				found := false
-				for _, a := range e.attestations([]string{s.Chain}) {
-					if bytes.Equal(a.Key, realKey(c)) {
-						found = true
-						if id, _ := violationID(a.Body, c); id != "" {
-							run.Violate(id, fmt.Sprintf("%s: vote of validator %d for %s was counted for a stored %s body that differs in %v; applying the voter's body: %q, applying the stored body: %q",
-								name, s.Orch, typeName(c), typeName(a.Body), effectDiff(a.Body, c), e.applyDigest(c), e.applyDigest(a.Body)), replay)
-						}
-					}
+			if !ok {
+				continue
+			}
+			// Which attestation (read back from the raw store) received this vote?
+			var hit []attRec
+			for k, a := range after {
+				if len(a.Votes) > len(before[k].Votes) {
+					hit = append(hit, a)
 				}
-				if !found {
-					run.Violate("C11:vote-not-stored", name+": accepted claim has no attestation under its key", replay)
-				}
+			}
+			if len(hit) != 1 {
+				run.Violate("C11:vote-not-stored", fmt.Sprintf("%s: accepted claim of validator %d changed the votes of %d attestations (expected exactly 1)", name, s.Orch, len(hit)), replay)
+				continue
+			}
+			a := hit[0]
+			// (1) the STORED body, byte for byte, against the claim the voter SUBMITTED
+			if id, _ := violationID(a.Body, c); id != "" {
+				run.Violate(id, fmt.Sprintf("%s: vote of validator %d for %s was counted for a stored %s body that differs in %v (submitted %q / stored %q); applying the voter's body: %q, applying the stored body: %q",
+					name, s.Orch, typeName(c), typeName(a.Body), effectDiff(a.Body, c), diffValues(c, a.Body), diffValues(a.Body, c), e.applyDigest(c), e.applyDigest(a.Body)), replay)
+			} else if d1, d2 := e.applyDigest(c), e.applyDigest(a.Body); d1 != d2 {
+				run.Violate("C11:pooled-digest-differs:"+typeName(c), fmt.Sprintf("%s: applying the voter's body gives %q, applying the stored body gives %q", name, d1, d2), replay)
+			}
+			// (2) the store key is the key of the stored body and of the submitted claim
+			if !bytes.Equal(a.Key, realKey(a.Body)) {
+				run.Violate("C11:key-not-of-stored-body:"+typeName(a.Body), fmt.Sprintf("%s: attestation stored under key %x but the body read back from the store has key %x (stored body %v)",
+					name, a.Key, realKey(a.Body), a.Body), replay)
+			}
+			if !bytes.Equal(a.Key, realKey(c)) {
+				run.Violate("C11:key-not-of-submitted-claim:"+typeName(c), fmt.Sprintf("%s: vote of validator %d went to key %x but the submitted claim has key %x", name, s.Orch, a.Key, realKey(c)), replay)
 			}
 		}
 		var chs []string
@@ -530,7 +653,12 @@ func TestCorr(t *testing.T) {
 	for i := 0; i < nEff; i++ {
 		tt := r.Intn(3)
 		var a, b spec
-		switch r.Intn(6) {
+		switch r.Intn(8) {
+		case 6, 7:
+			a = honestSpec(r, tt, 1)
+			var fn string
+			b, fn = nearMissSpec(r, a)
+			doPair(build(a), build(b), "near-miss:"+fn, map[string]any{"kind": "pair", "a": toJ(a), "b": toJ(b)})
 		case 5:
 			a, b = aliasPair(r, tt, 1)
 			doPair(build(a), build(b), "alias-pair", map[string]any{"kind": "pair", "a": toJ(a), "b": toJ(b)})
@@ -577,7 +705,22 @@ func TestCorr(t *testing.T) {
 		attacker := victim.clone()
 		attacker.Orch = 4
 		name := "agree"
-		switch r.Intn(7) {
+		pos := r.Intn(6)
+		switch r.Intn(11) {
+		case 7, 8, 9: // near-miss spelling of one text field, submitted first
+			var fn string
+			attacker, fn = nearMissSpec(r, victim)
+			name = "near-miss:" + fn
+			pos = 0
+		case 10: // the honest validators use the unusual spelling, the first submitter the plain one
+			plain := victim.clone()
+			var fn string
+			victim, fn = nearMissSpec(r, plain)
+			victim.Orch = 0
+			attacker = plain
+			attacker.Orch = 4
+			name = "near-miss-honest:" + fn
+			pos = 0
 		case 6:
 			a, b := aliasPair(r, tt, 1)
 			victim, attacker, name = a, b, "alias-pair"
@@ -602,7 +745,7 @@ func TestCorr(t *testing.T) {
 			attacker.Orch = 4
 			name = "unrelated"
 		}
-		ops := attackHistory(victim, attacker, r.Intn(6))
+		ops := attackHistory(victim, attacker, pos)
 		// a second nonce, an out-of-order submission and a duplicate
 		if r.Intn(2) == 0 {
 			v2 := honestSpec(r, r.Intn(3), 2)
